@@ -19,7 +19,7 @@ def cfgs_quick():
     for enc in (1, 0):
         for ln in (0, 15, 16, 31, 32, 33, 64, 65):
             L.append((2, "none", dict(T=1, len=ln, enc=enc, bound=3), 1))
-        for ln in (0, 16, 31, 32, 40, 63):
+        for ln in (0, 16, 31, 40, 63):  # padded to 16, 32 (=1 chunk), 32, 48, 64 (=2 full chunks)
             L.append((2, "none", dict(T=2, len=ln, enc=enc, bound=2), 2 if ln >= 32 else 1))
         # three chunks on two buffers: buffer 0 is reused
         L.append((2, "none", dict(T=2, len=70, enc=enc, bound=2), 6))
@@ -31,6 +31,10 @@ def cfgs_quick():
         for ln in (0, 15, 16):
             L.append((1, "none", dict(T=2, len=ln, enc=enc, bound=2), 1))
         L.append((1, "none", dict(T=2, len=40, enc=enc, bound=1), 1))
+        # POSIX allows condition waits to return spuriously: one injected spurious wake-up per execution (counts as a deviation)
+        for ln in (40, 70):
+            L.append((2, "none", dict(T=2, len=ln, enc=enc, bound=1, spurious=1), 1))
+        L.append((2, "none", dict(T=3, len=100, enc=enc, bound=1, delay=1, spurious=1), 1))
         # memory oracle: same harness under AddressSanitizer (fork is ~5x dearer, so shallower)
         for ln in (31, 40):
             L.append((2, "address", dict(T=2, len=ln, enc=enc, bound=1), 1))
